@@ -1140,5 +1140,39 @@ seed("c16-lmtp-fallback-per-distinct-rcpt", "C16", "R-fill-value", "conn.go",
 			status.SetStatus(rcpt, err)
 		}""", "a recipient named twice gets one status: the client's Close waits forever for the last reply")
 
+seed("c11-hexchar-only-complete", "C11", "R-xtext-decodes-every-plus", "conn.go",
+"var hexcharRe = regexp.MustCompile(`\\+[0-9A-F]?[0-9A-F]?`)", "var hexcharRe = regexp.MustCompile(`\\+[0-9A-F]{2}?`)", "incomplete hexchars are not matched and pass through as literal text")
+seed("c09-challenge-carried-over", "C09", "R-auth-challenge", "conn.go",
+"""	response := ir
+	for {
+		challenge, done, err := sasl.Next(response)""", """	response := ir
+	var encoded string
+	for {
+		challenge, done, err := sasl.Next(response)""", "an empty challenge on a later step is sent as the client's previous line",
+more=[("""		encoded := \"\"
+		if len(challenge) > 0 {""", """		if len(challenge) > 0 {""")])
+seed("c13-bdat-panic-single-reply", "C13", "R-lmtp-last-only-per-recipient", "conn.go",
+"""		err := <-c.dataResult
+
+		if c.server.LMTP {""", """		err := <-c.dataResult
+
+		if err == errPanic {
+			c.writeResponse(dataErrorToStatus(err))
+			c.Close()
+			return
+		}
+
+		if c.server.LMTP {""", "after a backend panic BDAT LAST answers once, naming no recipient")
+seed("c16-client-rcpt-recorded-early", "C16", "R-recipients-as-accepted", "client.go",
+"""	if _, _, err := c.cmd(25, "%s", sb.String()); err != nil {
+		return err
+	}
+	c.rcpts = append(c.rcpts, to)
+	return nil""", """	c.rcpts = append(c.rcpts, to)
+	if _, _, err := c.cmd(25, "%s", sb.String()); err != nil {
+		return err
+	}
+	return nil""", "a refused recipient stays in the client's list: Close waits for a reply that never comes")
+
 json.dump(S, open(os.path.join(os.path.dirname(os.path.abspath(__file__)), "bank.json"), "w"), indent=1)
 print(len(S), "seeds")
